@@ -390,6 +390,9 @@ func (sel *Selection) endEdit(r NodeRequest, bubble bool) error {
 }
 
 func (sel *Selection) Delete() (err error) {
+	if sel.parent == nil {
+		return fmt.Errorf("%w. cannot delete the root", fc.BadRequestError)
+	}
 
 	// allow children to recieve indication their parent is being deleted by
 	// sending node request w/delete=true
@@ -513,6 +516,13 @@ func (sel *Selection) UpdateFrom(fromNode Node) error {
 
 // ClearField write nil/empty value to field.
 func (sel *Selection) ClearField(m meta.Leafable) error {
+	if list, inList := m.Parent().(*meta.List); inList {
+		for _, k := range list.KeyMeta() {
+			if k.Ident() == m.Ident() {
+				return fmt.Errorf("%w. cannot clear %s, it is a key of list %s", fc.BadRequestError, m.Ident(), list.Ident())
+			}
+		}
+	}
 	r := FieldRequest{
 		Request: Request{
 			Selection: sel,
@@ -622,6 +632,10 @@ func (sel *Selection) Set(v val.Value) error {
 		return fmt.Errorf("%s is not a leaf", sel.Path.Meta.Ident())
 	}
 	m := sel.Path.Meta.(meta.Leafable)
+	if v == nil {
+		// no value, nodes expect a clear request for that
+		return sel.ClearField(m)
+	}
 	r := FieldRequest{
 		Request: Request{
 			Selection: sel,
